@@ -47,8 +47,10 @@
       Two-site DMRG can converge to an excited eigenstate (KNOWN-FINDING C09-local-minimum), and
       because `previous_energy` survives a completed step, the first sweep of a later step is
       compared with an energy of the *previous* step (`first_sweep_compared_with_previous_step`,
-      `stale_previous_energy_counterexample`; KNOWN-FINDING C09-stale-previous-energy shows the
-      real solver accepting an energy 0.4 rad/µs above the ground energy that way). PARTIAL.
+      `stale_previous_energy_counterexample`; KNOWN-FINDING D19b shows the real solver accepting
+      an energy 0.4 rad/µs above the ground energy that way). The model carries the variant switch
+      `Cfg.resetPrev`: for the repaired variant `repaired_every_step_compares_its_own_sweeps`
+      holds; the harness decides on every run which variant the code matches. PARTIAL.
 -/
 import EmuVerif.Proofs.Dmrg
 import EmuVerif.Proofs.DmrgVariational
@@ -162,7 +164,7 @@ theorem sweep_converged (cfg : Cfg α) (s : St α) (e : α) (hs : SweepStart cfg
     (ht : TimesOk cfg) (p : α) (hp : s.prevE = some p) (hc : |e - p| < cfg.tol) :
     sweepStep cfg s e =
       ⟨{ s with curT := s.tgtT, sweepCount := 0, tsIndex := s.tsIndex + 1,
-                tgtT := nextTarget cfg s, curE := none },
+                tgtT := nextTarget cfg s, curE := none, prevE := keptPrev cfg s },
        [.sweepDone true, .stepDone s.tsIndex], none⟩ :=
   sweepStep_converged cfg s e hs ht ⟨p, hp, hc⟩
 
@@ -353,11 +355,12 @@ theorem completed_step_canonical (cfg : Cfg α) (s : St α) (e : α) (hs : Sweep
 the step that just completed — so **the first sweep of the next step is accepted iff its energy
 is within the tolerance of that old energy**, whatever the new Hamiltonian is. -/
 theorem first_sweep_compared_with_previous_step (cfg : Cfg α) (s : St α) (e e' : α)
+    (hv : cfg.resetPrev = false)
     (hs : SweepStart cfg s) (ht : TimesOk cfg) (hc : Conv cfg s e) :
     (sweepStep cfg s e).st.prevE = s.prevE
     ∧ (Conv cfg (sweepStep cfg s e).st e' ↔ ∃ p, s.prevE = some p ∧ |e' - p| < cfg.tol) := by
   rw [sweepStep_converged cfg s e hs ht hc]
-  exact ⟨rfl, Iff.rfl⟩
+  simp [keptPrev, hv, Conv]
 
 /-- Number of sweeps of each completed step, in order. -/
 def sweepsPerStep : List Event → Nat → List Nat
@@ -393,6 +396,51 @@ theorem stale_previous_energy_counterexample : ¬ EveryStepComparesItsOwnSweeps 
 example : (runSweeps cexCfg [0, 0, 7 / 10] cexInit).evs
     = [.sweepDone false, .sweepDone true, .stepDone 0, .sweepDone true, .stepDone 1] := by
   decide +kernel
+
+/-- In the **repaired** variant (`previous_energy = None` when a step converges) every step is
+accepted only after comparing two sweeps of its own — stated for any sweep start in which
+`previous_energy` is set only if the current step has already run a sweep. -/
+theorem repaired_steps_compare_their_own_sweeps (cfg : Cfg α) (hv : cfg.resetPrev = true)
+    (ht : TimesOk cfg) :
+    ∀ (es : List α) (s : St α), SweepStart cfg s → (s.prevE ≠ none → 1 ≤ s.sweepCount) →
+      ∀ c ∈ sweepsPerStep (runSweeps cfg es s).evs s.sweepCount, 2 ≤ c
+  | [], s, _, _ => by simp [runSweeps, sweepsPerStep]
+  | e :: es, s, hs, hj => by
+    by_cases hu : Unfinished cfg s
+    · rw [runSweeps_cons cfg e es s hu]
+      rcases sweepStep_cases cfg s e hs ht with ⟨hc, h⟩ | ⟨_, _, h⟩ | ⟨_, _, h, hh⟩
+      · have hs' := sweepStart_after cfg s e hs ht (by rw [h])
+        rw [h] at hs'
+        rw [h, andThen_none _ rfl]
+        have ih := repaired_steps_compare_their_own_sweeps cfg hv ht es _ hs'
+          (by simp [keptPrev, hv])
+        obtain ⟨p, hp, _⟩ := hc
+        have h1 : 1 ≤ s.sweepCount := hj (by rw [hp]; simp)
+        intro c hcm
+        simp only [List.cons_append, List.nil_append, sweepsPerStep, List.mem_cons] at hcm
+        rcases hcm with rfl | hcm
+        · omega
+        · exact ih c hcm
+      · have hs' := sweepStart_after cfg s e hs ht (by rw [h])
+        rw [h] at hs'
+        rw [h, andThen_none _ rfl]
+        have ih := repaired_steps_compare_their_own_sweeps cfg hv ht es _ hs'
+          (fun _ => by simp only; omega)
+        intro c hcm
+        simp only [List.cons_append, List.nil_append, sweepsPerStep] at hcm
+        exact ih c hcm
+      · rw [andThen_some _ hh, h]
+        simp [sweepsPerStep]
+    · rw [runSweeps_finished cfg _ s hu]; simp [sweepsPerStep]
+
+/-- … in particular from `__init__`: the repaired code satisfies `EveryStepComparesItsOwnSweeps`. -/
+theorem repaired_every_step_compares_its_own_sweeps (cfg : Cfg α) (hv : cfg.resetPrev = true)
+    (ht : TimesOk cfg) : EveryStepComparesItsOwnSweeps cfg := by
+  intro es s₀ h0 c hc
+  obtain ⟨hs, _, hp, hcnt, _⟩ := init_sweepStart h0
+  have := repaired_steps_compare_their_own_sweeps cfg hv ht es s₀ hs (fun h => absurd hp h)
+  rw [hcnt] at this
+  exact this c hc
 
 /-! ### Non-vacuity of the machine theorems -/
 
